@@ -67,7 +67,8 @@ def gen_block(g, idx, atypes):
                                              "meta": {}}]
         if n >= 2 and g.random() < 0.4:
             inter["angle_restraints_z"] = [{"atoms": [0, 1], "params": ["1", "90", "50", "1"], "meta": {}}]
-    return {"name": name, "atoms": atoms, "inter": inter, "nrexcl": g.choice([1, 1, 1, 2, 3])}
+    return {"name": name, "atoms": atoms, "inter": inter, "nrexcl": g.choice([1, 1, 1, 2, 3]),
+            "bare_atoms": g.random() < 0.15}      # [ atoms ] lines without charge and mass columns
 
 
 def gen_ff(g, nblocks=None, uniform_nrexcl=True, itp_p=0.2):
@@ -146,6 +147,15 @@ def gen_ff(g, nblocks=None, uniform_nrexcl=True, itp_p=0.2):
                                                              "params": ["1", "1", "1", "0.3", "0.4", "0.5", "1.0"], "meta": {}}]
                     break
     for X in blocks:
+        if len(X["atoms"]) >= 2 and g.random() < 0.2:
+            # a link that applies only where the first residue carries the residue-level attribute tag=R (given in the
+            # .json sequence file; node attributes of the residue graph are handed down to the atoms)
+            p, l, f = X["atoms"][-2]["name"], X["atoms"][-1]["name"], X["atoms"][0]["name"]
+            # ([ pairs ] entry together with the bond that makes the two residues neighbours in the link)
+            links.append({"resnames": names, "tag_link": True, "sections": {
+                "pairs": [{"atoms": [l + ' {"tag": "R"}', ">" + f], "params": ["1", "0.31", "2.5"], "meta": {}}],
+                "edges": [{"atoms": [l, ">" + f], "params": [], "meta": {}}]}})
+    for X in blocks:
         if g.random() < 0.3:
             # three-residue link along a chain of equal residues
             a = X["atoms"][0]["name"]
@@ -176,7 +186,10 @@ def render_item(ff, item):
         b = ff["blocks"][i]
         out += ["[ moleculetype ]", f"{b['name']} {b['nrexcl']}", "[ atoms ]"]
         for k, a in enumerate(b["atoms"]):
-            out.append(f"{k + 1} {a['atype']} 1 {b['name']} {a['name']} {a['cgnr']} {a['charge']} {a['mass']}")
+            if b.get("bare_atoms"):
+                out.append(f"{k + 1} {a['atype']} 1 {b['name']} {a['name']} {a['cgnr']}")
+            else:
+                out.append(f"{k + 1} {a['atype']} 1 {b['name']} {a['name']} {a['cgnr']} {a['charge']} {a['mass']}")
         for sec in ("bonds", "constraints", "angles", "dihedrals", "position_restraints", "distance_restraints",
                     "angle_restraints_z"):
             its = list(b["inter"].get(sec, []))
@@ -242,7 +255,10 @@ def gen_resgraph(g, ff, maxn=10):
         seq = [a] * cut + [b] * (n - cut)
     else:
         seq = [g.choice(names) for _ in range(n)]
-    return {"shape": shape, "resnames": seq, "edges": edges}
+    rg = {"shape": shape, "resnames": seq, "edges": edges}
+    if any(l.get("tag_link") for l in ff["links"]):
+        rg["tags"] = [g.choice(["R", "S"]) for _ in range(n)]       # only expressible in .json input
+    return rg
 
 
 def graph_json(rg, keys=None, node_order=None, edge_order=None, flip=None, resid_start=1):
@@ -254,6 +270,9 @@ def graph_json(rg, keys=None, node_order=None, edge_order=None, flip=None, resid
     edge_order = edge_order or list(range(len(rg["edges"])))
     flip = set(flip or [])
     nodes = [{"id": keys[i], "resname": rg["resnames"][i], "resid": i + resid_start} for i in node_order]
+    if rg.get("tags"):
+        for nd, i in zip(nodes, node_order):
+            nd["tag"] = rg["tags"][i]
     edges = []
     for ei in edge_order:
         a, b = rg["edges"][ei]
